@@ -653,3 +653,92 @@ Proof.
   destruct (se (getsig s (s_root r))), x; try reflexivity;
     destruct (base_sens_or_zero (getsig s (s_root r))); try reflexivity; apply P.
 Qed.
+
+(* sensitivity operations never touch a state *)
+Definition st_same (s s' : store) : Prop := length s' = length s /\ forall j, st (getsig s' j) = st (getsig s j).
+Lemma st_same_refl s : st_same s s. Proof. split; auto. Qed.
+Lemma st_same_trans a b c : st_same a b -> st_same b c -> st_same a c.
+Proof. intros [L1 F1] [L2 F2]. split; [congruence|]. intros j. rewrite F2. apply F1. Qed.
+
+Lemma put_se_st_same i v s : st_same s (put_se i v s).
+Proof.
+  split; [apply upd_length|]. intros j. unfold put_se.
+  destruct (Nat.eq_dec i j) as [<-|Hne]; [|rewrite getsig_upd_neq by exact Hne; reflexivity].
+  destruct (Nat.lt_ge_cases i (length s)) as [Hlt|Hge]; [rewrite getsig_upd_eq by exact Hlt; reflexivity|].
+  rewrite upd_oob by exact Hge. reflexivity.
+Qed.
+Lemma set_sens_st_same r x s : st_same s (set_sens r x s).
+Proof.
+  unfold set_sens. destruct (s_slice r) as [[ix shp]|]; [|apply put_se_st_same].
+  destruct (se (getsig s (s_root r))), x; try apply st_same_refl;
+    destruct (base_sens_or_zero (getsig s (s_root r))); try apply st_same_refl; apply put_se_st_same.
+Qed.
+Lemma add_sens_st_same r d s : st_same s (add_sens r d s).
+Proof.
+  unfold add_sens. destruct d as [d|]; [|apply st_same_refl].
+  destruct (s_slice r) as [[ix shp]|].
+  - destruct (base_sens_or_zero (getsig s (s_root r))); [apply put_se_st_same|apply st_same_refl].
+  - destruct (se (getsig s (s_root r))); apply put_se_st_same.
+Qed.
+Lemma add_all_st_same rs : forall ds s, st_same s (add_all rs ds s).
+Proof.
+  induction rs as [|r rs IH]; intros [|d ds] s; cbn; try apply st_same_refl.
+  eapply st_same_trans; [apply add_sens_st_same|apply IH].
+Qed.
+Lemma m_sensitivity_st_same m s : st_same s (m_sensitivity m s).
+Proof. unfold m_sensitivity. destruct (_ && _); [apply st_same_refl|apply add_all_st_same]. Qed.
+Lemma fold_st_same {A} (f : store -> A -> store) (Hf : forall s a, st_same s (f s a)) l : forall s, st_same s (fold_left f l s).
+Proof. induction l as [|a l IH]; intros s; cbn; [apply st_same_refl|]. eapply st_same_trans; [apply Hf|apply IH]. Qed.
+Lemma n_sensitivity_st_same n s : st_same s (n_sensitivity n s).
+Proof. unfold n_sensitivity. apply fold_st_same. intros; apply m_sensitivity_st_same. Qed.
+Lemma reset_sig_st_same r s : st_same s (reset_sig r s).
+Proof.
+  unfold reset_sig. destruct (s_slice r) as [[ix shp]|]; destruct (se (getsig s (s_root r))); try apply st_same_refl;
+    try (destruct (keep (getsig s (s_root r)))); apply put_se_st_same.
+Qed.
+Lemma n_reset_st_same n s : st_same s (n_reset n s).
+Proof.
+  unfold n_reset. apply fold_st_same. intros s0 m. unfold m_reset.
+  eapply st_same_trans; apply fold_st_same; intros; apply reset_sig_st_same.
+Qed.
+Lemma analytical_st_same c blk inps : forall outps iout rand s,
+  st_same s (a_store (analytical c blk inps outps iout rand s)).
+Proof.
+  induction outps as [|so outps IH]; intros iout rand s; cbn [analytical]; [apply st_same_refl|].
+  destruct (get_state so s) as [output|]; [|cbn [a_store]; apply IH].
+  destruct (make_seed c iout output rand) as [df rand']. cbn [a_store].
+  eapply st_same_trans; [|apply IH].
+  eapply st_same_trans; [apply set_sens_st_same|]. eapply st_same_trans; [apply n_sensitivity_st_same|apply n_reset_st_same].
+Qed.
+
+(* after the call every input state (every root the sub-network does not write) equals its initial value exactly *)
+Theorem fd_restores c blk inps outps s res j :
+  finite_difference c false blk inps outps s = inr res ->
+  Forall ref_wf inps -> Forall (fun si => (s_root si < length s)%nat) inps -> resp_pres blk j ->
+  st (getsig (f_store res) j) = st (getsig s j).
+Proof.
+  intros H Hwf Hlt Hpres. rewrite (fd_result _ _ _ _ _ _ H). cbn [f_store].
+  set (s1 := n_response blk (n_reset blk s)). set (a := analytical c blk inps outps 0 (c_rand c) s1).
+  destruct (analytical_st_same c blk inps outps 0%nat (c_rand c) s1) as [La Fa]. fold a in La, Fa.
+  destruct (n_reset_st_same blk s) as [Lr Fr].
+  assert (L1 : length s1 = length s) by (unfold s1; rewrite n_response_length; exact Lr).
+  rewrite perturb_inputs_restores; [|exact Hwf| |exact Hpres].
+  - rewrite Fa. unfold s1. rewrite Hpres. apply Fr.
+  - rewrite La, L1. exact Hlt.
+Qed.
+
+(* the seed handed to the module and used for the numerical value: what the configuration prescribes, unless the
+   output keeps its allocation and the seed object is zeroed by reset (quirk) *)
+Lemma analytical_head c blk inps so outps iout rand s output :
+  get_state so s = Some output ->
+  let df := fst (make_seed c iout output rand) in
+  let s2 := n_sensitivity blk (set_sens so (Some df) s) in
+  hd None (a_f0 (analytical c blk inps (so :: outps) iout rand s)) = Some output /\
+  hd [] (a_dx (analytical c blk inps (so :: outps) iout rand s)) = map (fun si => get_sens si s2) inps /\
+  (q_seed_alias c = false \/ keep (getsig s2 (s_root so)) = false ->
+   hd None (a_df (analytical c blk inps (so :: outps) iout rand s)) = Some df).
+Proof.
+  intros Hg. cbn [analytical]. rewrite Hg. destruct (make_seed c iout output rand) as [df rand'] eqn:E. cbn [fst].
+  cbn [a_f0 a_dx a_df hd]. split; [reflexivity|split; [reflexivity|]].
+  intros [Hq|Hk]; [rewrite Hq|rewrite Hk, andb_false_r]; reflexivity.
+Qed.
